@@ -36,6 +36,7 @@ pub fn rx(tier: Tier, segs: usize, lens: Vec<usize>, depth: usize) -> Driver {
         Act::Wait(5),
         Act::Spurious,
         Act::RepollReaderOtherTask,
+        Act::TransportPendingOnce,
     ];
     Driver { name: format!("rx-{segs}seg-lens{lens:?}"), cfg, prefix: vec![], alphabet, depth, state_cap: tier.pick(400_000, 6_000_000) }
 }
@@ -47,6 +48,34 @@ pub fn rx_halfclosed(tier: Tier, depth: usize) -> Driver {
     // our FIN is acknowledged by a data packet (an ST_STATE with the next sequence number would be
     // taken for the peer's FIN by the library's compatibility heuristic and close the connection)
     d.prefix = vec![Act::Shutdown, Act::Deliver(Pkt::Data { off: 0, ack: AckSpec::All, wnd: WndSpec::Default })];
+    d
+}
+
+/// After the peer's FIN has been consumed and while our own FIN is unacknowledged (last-ack): the FIN
+/// again, a FIN with a later number, data numbered past the FIN, stale ACKs. `low_peer_numbers`: the
+/// peer's sequence space lies below ours in wrap order (comparisons across the two spaces must not matter).
+pub fn rx_after_fin(tier: Tier, low_peer_numbers: bool, depth: usize) -> Driver {
+    let mut d = rx(tier, 4, vec![MSS], depth);
+    d.name = format!("rx-after-fin{}", if low_peer_numbers { "-lowpeer" } else { "" });
+    d.cfg.peer_respects_window = false;
+    if low_peer_numbers {
+        d.cfg.our_isn = 5_000;
+        d.cfg.peer_isn = 100;
+    }
+    d.prefix = vec![data(0), Act::Deliver(Pkt::Fin { off: 0, ack: AckSpec::Cur })];
+    let raw = |ptype: u8, seq_off: i32, payload: usize| Act::Deliver(Pkt::Raw { ptype, seq_off, ack_off: -1, wnd: 1 << 20, sack: None, payload });
+    d.alphabet = vec![
+        Act::Deliver(Pkt::Fin { off: 0, ack: AckSpec::Cur }),
+        raw(1, 1, 0),
+        raw(1, 3, 0),
+        raw(0, 1, MSS),
+        raw(0, 2, MSS),
+        raw(0, 0, MSS),
+        state(AckSpec::Cur, WndSpec::Default, SackSpec::None),
+        Act::Read(64),
+        Act::Tick,
+        Act::Spurious,
+    ];
     d
 }
 
@@ -544,6 +573,8 @@ pub fn run_and_report(ctx: &Ctx, d: &Driver, out: &mut Outcome) {
 /// every driver by name (debugging aid: `utpmc solo-debug <driver> '[0,2,8]'`)
 pub fn all_drivers(tier: Tier) -> Vec<Driver> {
     let mut v = vec![rx(tier, 2, vec![MSS], 6), rx(tier, 4, vec![MSS, 1], 6), rx(tier, 4, vec![1, MSS], 6), rx(tier, 3, vec![MSS - 1], 6), rx_halfclosed(tier, 6), rx_rude(tier, 6)];
+    v.push(rx_after_fin(tier, false, 5));
+    v.push(rx_after_fin(tier, true, 5));
     v.push(tx_window(tier, true, 10, 6));
     v.push(tx_window(tier, false, 10, 6));
     v.push(rtx(tier, 2, false, 7));
